@@ -26,7 +26,12 @@ CONTENT_TYPES = (
     + ['Application/JSON', 'APPLICATION/JSON-RPC; Charset=UTF-8', 'application/json;charset=utf-8', 'application/json; boundary=x; charset=utf-8',
        'application/jsonx', 'application/vnd.x+json', 'application/x-json', 'text/json', 'text/plain', 'application/xml',
        'application/json-rpcx', 'application/jsonrequest2', 'json', 'application/', None]
+    # parameters other than the usual one: the media type alone decides (bodies under these are kept to ASCII, the frameworks differ
+    # in whether they honour a foreign charset when decoding)
+    + ['application/json; charset=iso-8859-1', 'application/json-rpc; charset=us-ascii', 'application/jsonrequest; charset=ISO-8859-1',
+       'application/json; charset=utf8', 'application/json; version=2; q=0.5', 'text/plain; charset=iso-8859-1']
 )
+FOREIGN_CHARSET = [t for t in CONTENT_TYPES if t and 'charset=' in t.lower() and 'utf' not in t.lower()]
 
 STATUS_FNS = [
     {'k': 'default'},
@@ -94,6 +99,8 @@ def generate(tier, rng):
     thorough = tier == 'thorough'
     for ct in CONTENT_TYPES:
         for body in BODIES:
+            if ct in FOREIGN_CHARSET and not body.isascii():
+                continue
             for st in (STATUS_FNS if (thorough or ct in DOCUMENTED) else STATUS_FNS[:1]):
                 yield make_case(ct, body, st)
     for ct in DOCUMENTED + ['application/json; charset=utf-8', 'text/plain']:
